@@ -142,6 +142,10 @@ def _alphabet():
     A["A[2]"] = ("op", lambda A_, _, p: A_[2])
     A["A[idx,:]"] = ("op", lambda A_, _, p: A_[p.owned["idx"], :])
     A["A[1:3,::2]"] = ("op", lambda A_, _, p: A_[1:3, ::2])
+    A["A[0:2,0:2]"] = ("op", lambda A_, _, p: A_[0:2, 0:2])
+    A["A[idx,idx]"] = ("op", lambda A_, _, p: A_[p.owned["idx"], p.owned["idx"]])
+    A["inv(A,CG())"] = ("op", lambda A_, _, p: L.inv(cola.PSD(A_), L.CG(tol=1e-10, max_iters=60)))
+    A["inv(A,GMRES())"] = ("op", lambda A_, _, p: L.inv(A_, L.GMRES(tol=1e-10, max_iters=6)))
     A["A.to(None,f8)"] = ("op", lambda A_, _, p: A_.to(None, np.float64) if not isinstance(A_, ops.Identity) else A_.to(None))
     A["inv(A)@b"] = ("op+vec", lambda A_, b, p: L.inv(A_) @ b)
     A["solve(A,b)"] = ("op+vec", lambda A_, b, p: L.solve(A_, b))
@@ -260,7 +264,7 @@ def run_seq(case, seed):
             try:
                 dg = digest(res)
             except Exception as e:
-                dg = f"digest-exc:{type(e).__name__}"
+                dg = f"raised:{type(e).__name__}"
             trace.append((ev, operands, dg, None))
             # (i) caller-owned arrays untouched
             for k, a in pool.owned.items():
@@ -587,7 +591,7 @@ def _alphabet_names():
 ALPHA_KINDS = {
     "A@x": "op+vec", "x@A": "op+vec", "A@X": "op+mat", "A@xc": "op", "A.T": "op", "A.H": "op", "to_dense": "op", "-A": "op", "2.5*A": "op", "A+Diag": "op",
     "A@Diag": "op", "Identity@A": "op", "kron(A,Id2)": "op", "PSD(A)": "op", "flatten-unflatten": "op", "A[1,2]": "op", "A[2]": "op", "A[idx,:]": "op",
-    "A[1:3,::2]": "op", "A.to(None,f8)": "op", "inv(A)@b": "op+vec", "solve(A,b)": "op+vec", "inv(A,CG(x0))@b": "op+vec", "inv(A,GMRES(x0))@b": "op+vec",
+    "A[1:3,::2]": "op", "A[0:2,0:2]": "op", "A[idx,idx]": "op", "inv(A,CG())": "op", "inv(A,GMRES())": "op", "A.to(None,f8)": "op", "inv(A)@b": "op+vec", "solve(A,b)": "op+vec", "inv(A,CG(x0))@b": "op+vec", "inv(A,GMRES(x0))@b": "op+vec",
     "pinv(A)@b": "op+vec", "diag(A)": "op", "diag(A,1)": "op", "trace(A)": "op", "trace(A,Hutch)": "op", "logdet(A)": "op", "exp(A)@v": "op+vec",
     "sqrt(A,Lanczos)@v": "op+vec", "exp(A,Arnoldi)@v": "op+vec", "eig(A,2)": "op", "svd(A,2)": "op", "cholesky(A)": "op", "plu(A)": "op",
     "lanczos(A,v)": "op+vec", "arnoldi(A,v)": "op+vec", "NystromPrecond(A)": "op",
